@@ -509,3 +509,115 @@ pub fn gen_strings(seed: u64, n: usize, maxlen: i32) -> Vec<Value> {
     }
     out
 }
+
+// ---------------------------------------------------------------------------------------------------------------
+// random JSON texts (C08): numerals with random digit counts and exponents, strings with random escapes, nesting
+fn rnumeral(g: &mut G) -> String {
+    let mut s = String::new();
+    if g.rng.gen_bool(0.3) {
+        s.push('-');
+    }
+    let nd = match g.rng.gen_range(0..6) {
+        0 => 1,
+        1 => g.rng.gen_range(1..6),
+        2 => g.rng.gen_range(14..18),
+        3 => g.rng.gen_range(18..22),
+        _ => g.rng.gen_range(1..25),
+    };
+    if g.rng.gen_bool(0.15) {
+        s.push('0');
+    } else {
+        s.push(std::char::from_digit(g.rng.gen_range(1..10), 10).unwrap());
+        for _ in 1..nd {
+            s.push(std::char::from_digit(g.rng.gen_range(0..10), 10).unwrap());
+        }
+    }
+    if g.rng.gen_bool(0.5) {
+        s.push('.');
+        for _ in 0..g.rng.gen_range(1..19) {
+            s.push(std::char::from_digit(g.rng.gen_range(0..10), 10).unwrap());
+        }
+    }
+    if g.rng.gen_bool(0.5) {
+        s.push(if g.rng.gen_bool(0.5) { 'e' } else { 'E' });
+        match g.rng.gen_range(0..3) {
+            0 => s.push('-'),
+            1 => s.push('+'),
+            _ => {}
+        }
+        let e: i32 = match g.rng.gen_range(0..5) {
+            0 => g.rng.gen_range(0..5),
+            1 => g.rng.gen_range(20..25),
+            2 => g.rng.gen_range(290..300),
+            _ => g.rng.gen_range(0..300),
+        };
+        s.push_str(&e.to_string());
+    }
+    s
+}
+
+fn rjstring(g: &mut G) -> String {
+    let mut s = String::from("\"");
+    for _ in 0..g.rng.gen_range(0..8) {
+        let c: u32 = match g.rng.gen_range(0..10) {
+            0 => 34,
+            1 => 92,
+            2 => g.rng.gen_range(0..32),
+            3 => 0x1f600,
+            4 => g.rng.gen_range(0x80..0x800),
+            5 => g.rng.gen_range(0x10000..0x110000),
+            _ => g.rng.gen_range(32..127),
+        };
+        let c = if (0xd800..0xe000).contains(&c) { 0xe9 } else { c };
+        let ch = std::char::from_u32(c).unwrap_or('x');
+        let style = g.rng.gen_range(0..4);
+        if style >= 2 || c < 32 || c == 34 || c == 92 {
+            let mut buf = [0u16; 2];
+            for u in ch.encode_utf16(&mut buf) {
+                if style == 3 {
+                    s.push_str(&format!("\\u{:04X}", u));
+                } else {
+                    s.push_str(&format!("\\u{:04x}", u));
+                }
+            }
+        } else {
+            s.push(ch);
+        }
+    }
+    s.push('"');
+    s
+}
+
+/// {"kind":"num","text":numeral-in-context,"numerals":[numeral]} and {"kind":"struct","text":...}
+pub fn gen_json(seed: u64, n: usize) -> Vec<Value> {
+    let mut g = G::new(seed ^ 0x7503);
+    let mut out = vec![];
+    while out.len() < n {
+        if g.rng.gen_bool(0.6) {
+            let num = rnumeral(&mut g);
+            let (text, nums) = match g.rng.gen_range(0..3) {
+                0 => (num.clone(), vec![cps(&num)]),
+                1 => (format!("[ {}\t,7 ]", num), vec![cps(&num), cps("7")]),
+                _ => (format!("{{\"k\" : {}}}", num), vec![cps(&num)]),
+            };
+            out.push(json!({"e":"json","kind":"num","text":cps(&text),"numerals":nums}));
+        } else {
+            // strings and small-number structures stay inside the judge's value domain
+            let mut parts = vec![];
+            for _ in 0..g.rng.gen_range(1..5) {
+                let k = rjstring(&mut g);
+                let v = match g.rng.gen_range(0..5) {
+                    0 => rjstring(&mut g),
+                    1 => format!("[{}, {}]", rjstring(&mut g), g.rng.gen_range(-99..100)),
+                    2 => "null".to_string(),
+                    3 => format!("{{{}:{}}}", rjstring(&mut g), g.rng.gen_range(0..5)),
+                    _ => format!("{}.5", g.rng.gen_range(0..50)),
+                };
+                parts.push(format!("{} :{}", k, v));
+            }
+            let text = format!("{{{}}}", parts.join(" , "));
+            out.push(json!({"e":"json","kind":"struct","text":cps(&text),"numerals":[]}));
+        }
+    }
+    out
+}
